@@ -28,7 +28,7 @@ ASSUMPTIONS = [
     "a skipped final message leaves the victim legitimately waiting",
 ]
 NONTRIVIAL = ["cell", "sequence"]
-DEADLINE = {"quick": 70, "thorough": 1200}
+DEADLINE = {"quick": 150, "thorough": 1200}
 
 QUICK_SC = ["ssl3-rsa", "tls10-dhe_rsa", "tls11-ecdhe_ecdsa", "tls12-rsa",
             "tls12-ecdhe_rsa-clientauth", "tls12-rsa-clientauth-ecdsa",
